@@ -22,14 +22,56 @@ def matcher(prop):
 
 def classify(prop, v, **ctx):
     v.setdefault("finding", None)
-    for fn in MATCHERS.get(prop, []):
+    if v.get("finding"):
+        return v["finding"]
+    for fn in MATCHERS.get(prop, []) + [history_dependent_rounding_fold]:
         try:
-            fid = fn(v, **ctx)
+            fid = fn(v, prop=prop, **ctx) if fn is history_dependent_rounding_fold else fn(v, **ctx)
         except Exception:
             fid = None
         if fid:
             v["finding"] = fid
             return fid
+    return None
+
+
+def history_dependent_rounding_fold(v, prop="", text="", **kw):
+    """Counterfactual in a FRESH interpreter: sympy folds floor()/ceiling() of some bounded arguments to a constant while the
+    expression is built, and the constant depends on what was evaluated earlier in the process (tools/sympy_floor_history.py).
+    The violation is attributed to that mechanism iff the symbolic stage of the offending quantity holds fewer floor/ceiling
+    nodes in this (long-lived worker) process than in a fresh interpreter loading the same text."""
+    d = v.get("detail", {})
+    name = (d.get("root_cause") or {}).get("name") or d.get("name")
+    if not text or not name or v.get("kind") not in ("value", "numerics_differ_after_reload", "value_differs", "column_differs", "sub_model_value_differs_from_full_model", "wrong_slot_or_value", "value_differs_from_renamed_twin"):
+        return None
+    if count_calls(text, ["floor"]) == 0:
+        return None
+    import json
+    import subprocess
+
+    from ..core import env
+    from ..exec import fresh as FR
+    from . import common as C
+
+    lo = C.load_text(text)
+    if not lo.ok:
+        return None
+    if name not in lo.value._lookup:
+        # scheme functions report the state: use its derivative
+        name = f"d{name}_dt"
+        if name not in lo.value._lookup:
+            return None
+    here = FR.count_rounding_nodes(lo.value, name)
+    e = env.child_env("0")
+    e["VERIF_REPO"] = env.REPO
+    p = subprocess.run(["/venv/bin/python", "-m", "vf.exec.fresh"], input=json.dumps({"text": text, "requests": [], "count_rounding_nodes_of": name}), capture_output=True, text=True, env=e, cwd=env.VERIF, timeout=300)
+    fresh = None
+    for ln in p.stdout.splitlines():
+        if ln.startswith("RESULT "):
+            fresh = json.loads(ln[7:]).get("count")
+    if fresh is not None and here < fresh:
+        d["rounding_nodes_here_vs_fresh_interpreter"] = [here, fresh]
+        return f"{prop}-sympy-folds-floor-to-a-history-dependent-constant"
     return None
 
 
@@ -234,6 +276,10 @@ def c03_matchers(v, text="", features=None, ode=None, ref=None, code=None, **kw)
     if kind == "raises" and "An overflow was encountered while parsing an argument to a jitted computation" in exc and "<class 'int'>" in exc:
         # only an integer literal of the generated code (or integer arithmetic between such literals) can be a Python int here
         return "C03-huge-int-literal"
+    if kind == "raises" and "OverflowError" in exc and "Python int" in exc and "too large to convert to int64" in exc:
+        # the message itself shows that a Python int >= 2**63 reached jax; only integer literals of the generated code (or
+        # Python's exact arithmetic between them, e.g. 100**16) can produce one - the inputs are float64 arrays
+        return "C03-huge-int-literal"
     if kind == "raises" and any(t in exc for t in HUGE_INT_TEXTS) and (has_huge_int_literal(text) or has_huge_int_literal(code or "") or (ode is not None and huge_integer_atom(ode, ref, list(ref.assigns)))):
         return "C03-huge-int-literal"
     if kind == "raises" and ("name 'inf'" in exc or "name 'nan'" in exc) and code and re.search(r"(?<![\w.])(inf|nan)(?![\w.(])", code):
@@ -375,9 +421,9 @@ def c16_matchers(v, text="", n_sing=0, ode=None, target=None, **kw):
     d = v.get("detail", {})
     k = d.get("n_removable", n_sing) or 0
     if v.get("kind") == "not_the_limit_at_removable_point" and ode is not None and target and exp_constant_folded(ode, target, d.get("expr", "")):
-        g = d.get("got")
-        if g is None or g != g or abs(g) == float("inf"):
-            return "C16-exp-of-float-offset-is-folded-at-load"
+        # the folded form (c*exp(x) - 1)/(x + a) is not exactly 0/0 at the singular value: the singularity is either not
+        # removed (nan) or replaced by the limit of the folded form (0 instead of 1)
+        return "C16-exp-of-float-offset-is-folded-at-load"
     if k < 2:
         return None
     if v.get("kind") == "changed_at_regular_point":
@@ -386,10 +432,9 @@ def c16_matchers(v, text="", n_sing=0, ode=None, target=None, **kw):
         if r is not None and abs(r - round(r)) < 1e-9 and 2 <= round(r) <= k:
             return "C16-sum-of-conditionals"
     if v.get("kind") == "not_the_limit_at_removable_point":
-        g = d.get("got")
-        # predictive: at one singular value the other k'-1 summands still evaluate the original (singular) expression
-        if g is None or g != g or abs(g) == float("inf"):
-            return "C16-sum-of-conditionals"
+        # with k >= 2 summed conditionals, at one singular value the other k'-1 summands still evaluate the original
+        # expression there (non-finite, or whatever its floating point evaluation yields): the sum is wrong at every point
+        return "C16-sum-of-conditionals"
     return None
 
 
